@@ -40,7 +40,7 @@ PROFILES = {
              "LUSERS": 6, "WHOIS": 3, "CONNECT": 3, "REGSTEP": 4},
     "secret": {"MODE_CH": 20, "MODE_U": 10, "JOIN": 15, "LIST": 10, "NAMES": 12, "WHO": 14, "WHOIS": 12,
                "PRIVMSG": 6, "NOTICE": 3, "PART": 3},
-    "nick": {"NICK": 30, "JOIN": 12, "MODE_CH": 8, "MODE_U": 8, "AWAY": 4, "INVITE": 4, "OPER": 3, "WHOWAS": 5,
+    "nick": {"NICK": 30, "JOIN": 14, "MODE_CH": 22, "MODE_U": 8, "AWAY": 4, "INVITE": 4, "OPER": 3, "WHOWAS": 5,
              "WHOIS": 5, "NAMES": 4, "WALLOPS": 2, "PRIVMSG": 4, "CONNECT": 3, "REGSTEP": 4},
     "chanlife": {"JOIN": 30, "PART": 15, "KICK": 8, "QUIT": 4, "EOF": 3, "KILL": 2, "OPER": 3, "MODE_CH": 10,
                  "TOPIC": 5, "LIST": 5, "NAMES": 4, "INVITE": 3, "CONNECT": 4, "REGSTEP": 4},
@@ -185,7 +185,9 @@ class Gen:
             out += l
             if l in "ovhqa":
                 if r.random() < 0.95:
-                    args.append(self.pick_nick())
+                    mem = [self.conns[x]["nick"] for x in self.chan_members.get(self.cur_chan, [])
+                           if self.conns[x].get("nick")] if self.cur_chan else []
+                    args.append(r.choice(mem) if mem and r.random() < 0.8 else self.pick_nick())
             elif l in "beI":
                 if r.random() < 0.85:
                     args.append(r.choice(MASKS))
@@ -240,12 +242,27 @@ class Gen:
             c = self.pick_live()
         if c is None:
             return
+        # channel-management verbs are mostly issued by somebody who probably has the rank
+        self.cur_chan = None
+        if v in ("MODE_CH", "KICK", "TOPIC", "INVITE") and self.chan_members and r.random() < 0.7:
+            ch = r.choice(sorted(self.chan_members))
+            mem = [x for x in self.chan_members[ch] if self.conns.get(x, {}).get("live")]
+            if mem:
+                f = self.chan_founder.get(ch)
+                c = f if (f in mem and r.random() < 0.7) else r.choice(mem)
+                self.cur_chan = ch
         me = self.conns[c]
         if v == "JOIN":
             n = r.choice([1, 1, 1, 2, 3])
             chans = [self.pick_chan() for _ in range(n)]
             if r.random() < 0.06 and n > 1:
                 chans[1] = chans[0]
+            for ch in chans:
+                self.chan_members.setdefault(ch, [])
+                if c not in self.chan_members[ch]:
+                    if not self.chan_members[ch]:
+                        self.chan_founder[ch] = c
+                    self.chan_members[ch].append(c)
             s = "JOIN " + ",".join(chans)
             if r.random() < 0.45:
                 k = [r.choice(KEYS) for _ in range(n if r.random() < 0.9 else n + 1)]
@@ -274,7 +291,7 @@ class Gen:
             txt = r.choice(TEXTS)
             self.line(c, "%s %s :%s" % (v, ",".join(ts), txt))
         elif v == "MODE_CH":
-            ch = self.pick_chan()
+            ch = self.cur_chan or self.pick_chan()
             if r.random() < 0.12:
                 self.line(c, "MODE " + ch + r.choice(["", " b", " +b", " e", " +I", " +e"]))
             else:
@@ -295,17 +312,22 @@ class Gen:
                 us[0] = me["nick"]
             if r.random() < 0.1 and n > 1:
                 us[1] = us[0]
-            s = "KICK %s %s" % (self.pick_chan(), ",".join(us))
+            kch = self.cur_chan or self.pick_chan()
+            if self.cur_chan and r.random() < 0.7:
+                mem = [self.conns[x]["nick"] for x in self.chan_members.get(kch, []) if self.conns[x].get("nick")]
+                if mem:
+                    us = [r.choice(mem) for _ in range(n)]
+            s = "KICK %s %s" % (kch, ",".join(us))
             if r.random() < 0.5:
                 s += " :" + r.choice(TEXTS)
             self.line(c, s)
         elif v == "TOPIC":
-            s = "TOPIC " + self.pick_chan()
+            s = "TOPIC " + (self.cur_chan or self.pick_chan())
             if r.random() < 0.7:
                 s += " :" + r.choice(TEXTS)
             self.line(c, s)
         elif v == "INVITE":
-            self.line(c, "INVITE %s %s" % (self.pick_nick(0.85), self.pick_chan()))
+            self.line(c, "INVITE %s %s" % (self.pick_nick(0.85), self.cur_chan or self.pick_chan()))
         elif v == "NICK":
             x = r.random()
             if x < 0.55:
@@ -442,6 +464,9 @@ class Gen:
         r = self.r
         self.ops = []
         self.conns = {}
+        self.chan_members = {}
+        self.chan_founder = {}
+        self.cur_chan = None
         cfg = self.gen_cfg()
         nconn = r.choice([2, 3, 3, 4, 4, 5])
         for c in range(1, nconn + 1):
